@@ -21,6 +21,7 @@ EXPLANATION = (
     "and wait inside the condition, None on unchanged size or passed deadline, filter is `emcy_code is None or "
     "emcy.code == emcy_code`; R6 log and active are never aliased and only on_emcy/reset rebind them; R9 the bus listener hands every data frame, with the frame's own id/data/timestamp, to the subscribers (shared with C10.R5); R8 structural assumptions shared by all properties: no class-level mutable object is mutated in place by instances, no method re-runs the constructor, logging statements cannot raise (typed eager formatting, divisions), no mutable default argument is kept or mutated, no new truth-value test of a None-able number, a look-up memory the pinned tree does not have is keyed by all its inputs (arithmetic keys folded over a grid of addresses) and, on the serving side, emptied somewhere."
     ' R1 also: send/reset accept every 16-bit code, register 0..0xFF and 0..5 data bytes (specialised for boundary probes); R5 also: the code filter is decided by evaluation for filters None / 0 / two codes, a deadline test may be guarded by `end_time is not None` when that arises from timeout=None only.'
+    ' R2 also: the order of bookkeeping and notify inside one with-block is free, user callbacks run only after the waiters were woken.'
 )
 ASSUMPTIONS = [
     "not decided: which of several concurrently arriving entries a waiting caller is handed (schedule dependent)",
